@@ -11,6 +11,7 @@ import sys
 HERE = os.path.dirname(os.path.abspath(__file__))
 sys.path.insert(0, HERE)
 from tables import write_if_changed, GEN  # noqa: E402
+import pool  # noqa: E402
 
 HEADER = """import EG.SingleCfg
 /-
@@ -39,7 +40,7 @@ def rows():
                 (aa, ak), (ba, bk) = SARGS[a], SARGS[b]
                 try:
                     same = C(*aa, **ak) is C(*ba, **bk)
-                except Exception:  # noqa: BLE001
+                except (Exception, pool.Interrupt):  # noqa: BLE001
                     same = None
                 out.append("  ⟨%d, %d, %d, %s⟩" % (meta, a, b, "true" if same else "false"))
     return out
